@@ -82,6 +82,12 @@ def search(D=3):
                                 exp = op[1][k] if (op[1] and k in op[1] and authorised(k, op[1][k])) else pm[k]
                                 if v.value != exp:
                                     return n, f"child gene {k!r} = {v.value!r}, expected {exp!r} (allow={allow}, approval#{ai}, mutations={op[1]})"
+                            # every refused replication mutation is logged (as unapproved) in the child
+                            for k, nv in (op[1] or {}).items():
+                                if k in pm and not authorised(k, nv):
+                                    if not any(m_.gene_name == k and not m_.approved for m_ in child._mutations):
+                                        return n, (f"replicate(mutations={op[1]}): the refused mutation of {k!r} is not logged as unapproved in the child "
+                                                   f"(allow={allow}, approval#{ai}, child log={[(m_.gene_name, m_.approved) for m_ in child._mutations]})")
                         elif op[0] == "express":
                             cfg = g.express(op[1])
                             expect = {}
